@@ -91,4 +91,28 @@ PARTS = [
     Part("engine", prop, strategy=cases, quick=4800, thorough=120000, shrink_budget=40),
     Part("paused-racer", prop_race, enumerate=race_enumerate),
 ]
+# --- (c) several experiment processes submitting overlapping job sets -------------------------
+
+
+def prop_real(ctx, sc):
+    from vlib import real
+
+    res, labels, done_ok, begins, run = real.run_scenario(ctx, sc, ID)
+    try:
+        shared = [i for i in range(len(sc["jobs"])) if sum(i in p["jobs"] for p in sc["procs"]) >= 2]
+        if shared:
+            labels.append("real:job-submitted-by-two-processes")
+        ctx.record(bool(shared), ["real"] + labels, sample={"scenario": sc, "log": res["log"], "status": res["status"], "time": res["time"]})
+    finally:
+        run.cleanup()
+
+
+def real_cases(ctx):
+    from vlib import real
+
+    return real.scenarios(max_procs=3, min_procs=2, max_jobs=5, token_pct=30, fail_pct=10)
+
+
+PARTS.append(Part("real", prop_real, strategy=real_cases, quick=16, thorough=240, shrink_budget=5))
+MIN_CLASSES["quick"]["real:job-submitted-by-two-processes"] = 8
 TIMEOUT = {"quick": 900, "thorough": 5400}
